@@ -232,6 +232,11 @@ pub fn build(case: &Case) -> Scenario {
         1 => 400_000,
         _ => 0,
     };
+    if scn.opts.pending_throttle_us >= 100_000 {
+        // "idle" is recognised by the first keep-alive ping: it must not come while the pending queue is still being
+        // replayed at 0.4 s per request
+        scn.opts.keep_alive_s = 60;
+    }
     scn.snap = SnapLevel::Full;
     scn.conns.clear();
     for c in &case.conns {
@@ -322,7 +327,7 @@ pub fn build(case: &Case) -> Scenario {
             nth: 0,
         });
     }
-    scn.horizon_ms = 60_000;
+    scn.horizon_ms = if scn.opts.keep_alive_s > 5 { 400_000 } else { 60_000 };
     scn.stop.max_polls = 20_000;
     scn
 }
